@@ -44,7 +44,7 @@ type SPeer struct {
 }
 
 type SAct struct {
-	Kind    string    `json:"kind"` // app | deliver | storefault | none
+	Kind    string    `json:"kind"`          // app | deliver | storefault | none
 	At      string    `json:"at,omitempty"`  // fire at this yield point ("" = the next yield)
 	Occ     int       `json:"occ,omitempty"` // ... at its Occ-th occurrence from now (0 = first)
 	Changes []SChange `json:"changes,omitempty"`
@@ -53,12 +53,12 @@ type SAct struct {
 }
 
 type LoopCase struct {
-	Native      bool      `json:"native"`
-	Start       []SChange `json:"start,omitempty"`         // data present before the syncer starts
-	PeerAtStart []SPeer   `json:"peer_at_start,omitempty"` // a peer snapshot already in the bucket at start-up
-	Plan        []SAct    `json:"plan"`
-	AllowF9     bool      `json:"allow_f9,omitempty"` // known-finding reproduction only
-	ExcludedEmpty int     `json:"excluded_empty,omitempty"`
+	Native        bool      `json:"native"`
+	Start         []SChange `json:"start,omitempty"`         // data present before the syncer starts
+	PeerAtStart   []SPeer   `json:"peer_at_start,omitempty"` // a peer snapshot already in the bucket at start-up
+	Plan          []SAct    `json:"plan"`
+	AllowF9       bool      `json:"allow_f9,omitempty"` // known-finding reproduction only
+	ExcludedEmpty int       `json:"excluded_empty,omitempty"`
 }
 
 var loopYieldPoints = []string{"sync.iter", "sync.before-next", "sync.before-load", "load.after-txn", "sync.after-load",
@@ -139,7 +139,7 @@ func runLoopCase(c LoopCase, o *vcore.Obs) (*loopStats, error) {
 	touchedKeys := map[string]bool{} // keys the application ever wrote (shadow mode)
 	nowSeq := uint64(0)
 	nextNow := func() uint64 { nowSeq++; return 2_000_000_000_000_000_000 + nowSeq }
-	local := map[string]map[string]Ver{}  // native mode: last application commit per key
+	local := map[string]map[string]Ver{}     // native mode: last application commit per key
 	merged := map[string]map[string]VerSet{} // peer versions merged so far
 	addMerged := func(ents []SPeer) {
 		dup := map[string]bool{}
@@ -750,7 +750,7 @@ func TestC03Loop(t *testing.T) {
 type enumLoop struct {
 	Native   bool   `json:"native"`
 	Point    string `json:"point"`
-	Kind     string `json:"kind"` // insert | overwrite | delete | newdbi | multi
+	Kind     string `json:"kind"`      // insert | overwrite | delete | newdbi | multi
 	PeerNoop bool   `json:"peer_noop"` // the delivered peer snapshot changes nothing
 	// LocalFirst: another application commit precedes (at the end of the previous iteration), so that
 	// the iteration in which the commit under test falls also captures/uploads (all 12 points occur)
